@@ -20,11 +20,12 @@ class Obl:
     expect: str = "unsat"     # 'unsat' = goal must be valid; 'sat' = hyps /\ goal must be satisfiable (cover)
     path: str = ""
     uses: tuple = ()          # assumed-contract ids used on the path
+    heavy: tuple = ()         # second-stage hypotheses
 
 
 class State:
     __slots__ = ("env", "envty", "heap", "pc", "ghost", "owned", "exc_reg", "seg", "trace", "tags",
-                 "envref", "uses", "suspended", "loopvars", "defs")
+                 "envref", "uses", "suspended", "loopvars", "defs", "lazy", "heavy")
 
     def __init__(self):
         self.env: dict[str, SV] = {}
@@ -41,6 +42,8 @@ class State:
         self.suspended = z3.BoolVal(False)   # ghost: has this activation passed a suspension point
         self.loopvars: dict = {}
         self.defs: list = []             # definitions of named heap snapshots (name == term)
+        self.lazy: list = []             # (invariant name, formula): hypotheses used only where requested
+        self.heavy: list = []            # quantified background facts: used only when the light hypotheses do not suffice
 
     def copy(self) -> "State":
         s = State()
@@ -58,6 +61,8 @@ class State:
         s.suspended = self.suspended
         s.loopvars = dict(self.loopvars)
         s.defs = list(self.defs)
+        s.lazy = list(self.lazy)
+        s.heavy = list(self.heavy)
         return s
 
     def assume(self, *fs):
